@@ -108,6 +108,8 @@ def conclude(prop, tier, seed, results, wall, reg):
     known = 0
     # ---- refutations -> replay -> VIOLATION / KNOWN-FINDING   (one report per unit)
     by_unit = {}
+    reported_units = set()
+    downgraded = []
     for r, o in refuted:
         by_unit.setdefault(r["name"], (r, []))[1].append(o)
     for uname, (r, obsr) in by_unit.items():
@@ -122,8 +124,10 @@ def conclude(prop, tier, seed, results, wall, reg):
         if not unknown:
             continue
         confirmed, detail, which = False, None, unknown[0]
+        ran = {}
         for o in unknown:
             ok, d = rp.try_replay(reg, r, o)
+            ran[o["name"]] = d
             if ok:
                 confirmed, detail, which = True, d, o
                 break
@@ -132,18 +136,35 @@ def conclude(prop, tier, seed, results, wall, reg):
             found = rp.search_failing_input(reg, r, unknown[0], seed)
             if found is not None:
                 confirmed, detail = True, found
+        if not confirmed and r.get("engine") == "pyvc" and not os.environ.get("VERIF_STRICT_REFUTATIONS") \
+                and all(isinstance(ran.get(o["name"]), str) and ran[o["name"]].startswith("the model does not reproduce natively") for o in unknown):
+            # Engine / modular incompleteness, not a violation: every counter-model is a complete,
+            # well-typed input on which the REAL function satisfies every clause of its contract,
+            # and the native search finds no failing input either.  A refutation that the code itself
+            # contradicts says that the VC (a callee contract weaker than the callee, a loop cut, an
+            # encoding gap) is too weak to prove the obligation - "a failed proof means undecided".
+            # (False alarm found by benign refactoring BEN-R7B1-1.)  Refutations whose model cannot
+            # be turned into an input, and regex / frame / lemma refutations, are still reported.
+            for o in unknown:
+                o["status"] = "undecided"
+                o["reason"] = (o.get("reason") or "") + " | refuted by the solver, but the real function satisfies its contract on the counter-model and the native search finds no failing input: undecided (engine or modular incompleteness)"
+            downgraded.extend((r, o) for o in unknown)
+            continue
         ob = dict(which)
         ob["all_refuted_obligations"] = [{"name": o["name"], "reason": o.get("reason"), "backend": o.get("backend")} for o in unknown]
         path = write_replay(prop, r, ob, confirmed, detail)
         violations += 1
+        reported_units.add(uname)
         lines.append(f"VIOLATION property={prop} replay={path}" + ("" if confirmed else " no-failing-input-found"))
         exit_code = 1
 
+    undecided_obs = undecided_obs + downgraded
+    refuted = [(r, o) for r, o in refuted if o["status"] == "refuted"]
     # ---- bounded stand-ins for undecided units / obligations
     bounded = []
     for r in undecided_units + [r for r, _ in undecided_obs]:
-        if any(b["unit"] == r["name"] for b in bounded):
-            continue
+        if any(b["unit"] == r["name"] for b in bounded) or r["name"] in reported_units:
+            continue        # (one report per unit: a unit with a replayed refutation needs no stand-in)
         b = rp.bounded_standin(reg, r, seed, tier)
         bounded.append(b)
         if b.get("failing") is not None and r.get("dependency") and "exception escapes" not in str(b["failing"].get("clause")):
